@@ -300,6 +300,11 @@ struct Extractor {
                             {"ln", (int64_t)lineOf(BO->getOperatorLoc())}};
       }
       json::Object o{{"k", "bin"}, {"op", op}, {"l", norm(BO->getLHS(), false, fold)}, {"r", norm(BO->getRHS(), false, fold)}};
+      // result type of arithmetic (not comparison / logical) operators: needed for unsigned wrap-around
+      if ((BO->isAdditiveOp() || BO->isMultiplicativeOp() || BO->isShiftOp() || BO->isBitwiseOp()) && E->getType()->isIntegerType()) {
+        o["w"] = (int64_t)Ctx.getTypeSize(E->getType());
+        o["sg"] = E->getType()->isSignedIntegerOrEnumerationType();
+      }
       std::string m = wholeMacro(E);
       if (!m.empty()) o["mac"] = m;
       return std::move(o);
